@@ -930,7 +930,13 @@ def show_rate(r):
 def _rate_new(st, name, uc, um, tc, ta, d):
     qm = _money()
     with dflt_mode(d):
-        r = qm.ExchangeRate(Unit(uc), _num_tok(um), Unit(tc), _num_tok(ta))
+        # currencies may be given as objects or by their symbols, in turn
+        st.n_rates = getattr(st, "n_rates", 0) + 1
+        ucu, tcu = Unit(uc), Unit(tc)
+        k = st.n_rates % 4
+        r = qm.ExchangeRate(uc if k in (1, 3) else ucu, _num_tok(um),
+                            tc if k in (2, 3) else tcu, _num_tok(ta))
+        assert r.unit_currency is ucu and r.term_currency is tcu
     st.obj["rate", name] = r
     assert type(r._term_amount) is Decimal and type(r._unit_multiple) is Decimal
     q = r.quotation
@@ -1031,9 +1037,11 @@ def _specs(s):
     if s == "-":
         return []
     out = []
-    for sp in s.split(";"):
+    for i, sp in enumerate(s.split(";")):
         c, ta, um = sp.split(",")
-        out.append((Unit(c), _num_tok(ta), _num_tok(um)))
+        # a term currency is a Currency or its symbol (every third spec)
+        cur = Unit(c)
+        out.append((c if (i + len(s)) % 3 == 0 else cur, _num_tok(ta), _num_tok(um)))
     return out
 
 
